@@ -163,6 +163,134 @@ void wop(string *a) {
   }
 }
 
+// C06: value plumbing. slots: name -> value kept alive by this object
+mapping slots;
+class CK { mixed b; int a; mixed c; }
+void take(string k, mixed v) { if (!slots) slots = ([ ]); slots[k] = v; }
+void co_val(mixed v, string k) { rec("COVAL " + me() + " " + k); }
+void got_val(string line, mixed v, string k) { rec("GOTVAL " + me() + " " + k); }
+int act_val(string arg) { rec("ACTVAL " + me()); return 1; }
+int cmp_val(mixed x, mixed y) { return 1; }
+string vsum(mixed v) {
+  if (arrayp(v)) return "A" + sizeof(v) + (sizeof(v) ? ":" + vsum(v[0]) + ":" + vsum(v[<1]) : "");
+  if (mapp(v)) return "M" + sizeof(v);
+  if (stringp(v)) return "S" + strlen(v) + ":" + v[0..7];
+  if (bufferp(v)) return "B" + sizeof(v);
+  if (objectp(v)) return "O";
+  if (functionp(v)) return "F";
+  if (classp(v)) return "C";
+  if (intp(v)) return "I" + v;
+  return "?";
+}
+mixed mkval(string kind, int n, string k) {
+  mixed v; int i; class CK c;
+  switch (kind) {
+  case "arr": v = allocate(n); for (i = 0; i < n; i++) { if (i & 1) v[i] = "tok" + k + i; else v[i] = i; } return v;
+  case "map": v = ([ ]); for (i = 0; i < n; i++) v["key" + k + i] = ({ i, "val" + i }); return v;
+  case "str": return "S" + k + repeat_string("xy", n);
+  case "buf": return allocate_buffer(n + 1);
+  case "cls": c = new(class CK); c->a = n; c->b = ({ "in class " + k }); c->c = ([ k : n ]); return c;
+  case "fp": return (: fp_target :);
+  case "fpb": return (: fp_target, "rec bound" + k :);
+  case "fpl": return (: $1 + 1 :);
+  case "fpa": return function(int x) { return x + 1; };
+  case "nest": v = ({ "leaf" + k }); for (i = 0; i < n; i++) v = ({ v, ([ "d" + i : v ]) }); return v;
+  case "obj": return new("/vobj");
+  }
+  return 0;
+}
+void cop(string *a) {
+  string v; object o; mixed x, y, e; int i, n;
+  v = a[0];
+  if (!slots) slots = ([ ]);
+  switch (v) {
+  case "mk":      // mk <slot> <kind> <n>
+    slots[a[1]] = mkval(a[2], to_int(a[3]), a[1]);
+    break;
+  case "put":     // put <a> <b>: store the value of slot b inside the container in slot a
+    x = slots[a[1]]; y = slots[a[2]];
+    if (arrayp(x) && sizeof(x)) x[0] = y;
+    else if (mapp(x)) x["put" + a[2]] = y;
+    else if (classp(x)) ((class CK)x)->b = y;
+    break;
+  case "cyc":     // cyc <a>: make the container refer to itself (must be undone with uncyc before it is dropped)
+    x = slots[a[1]];
+    if (arrayp(x) && sizeof(x)) x[<1] = x; else if (mapp(x)) x["self"] = x;
+    break;
+  case "uncyc":
+    x = slots[a[1]];
+    if (arrayp(x) && sizeof(x)) x[<1] = 0; else if (mapp(x)) map_delete(x, "self");
+    break;
+  case "share":   // share <a> <ob>
+    o = ob_of(a[2]);
+    if (o) o->take(a[1], slots[a[1]]);
+    break;
+  case "cov":     // cov <a> <delay>: the value travels as a call_out argument
+    call_out("co_val", to_int(a[2]), slots[a[1]], a[1]);
+    break;
+  case "covf":    // covf <a> <delay>: the same through a function-pointer call_out (kept by handle)
+    if (!handles) handles = ([ ]);
+    handles["v" + sizeof(handles)] = call_out((: co_val :), to_int(a[2]), slots[a[1]], a[1]);
+    break;
+  case "itv":     // itv <a>: the value travels as an input_to carry-over argument
+    input_to("got_val", 0, slots[a[1]], a[1]);
+    break;
+  case "drop":
+    map_delete(slots, a[1]);
+    break;
+  case "clearall":
+    slots = 0; held = 0; cb_script = 0;
+    break;
+  case "rb":      // rb <a>: read the value back
+    rec("RB " + me() + " " + a[1] + " " + vsum(slots[a[1]]));
+    break;
+  case "many":    // many <a> <n> <k>: k arrays of n slots, every slot referring to the value of slot a
+    x = allocate(to_int(a[3]));
+    for (i = 0; i < sizeof(x); i++) { x[i] = allocate(to_int(a[2])); for (n = 0; n < sizeof(x[i]); n++) x[i][n] = slots[a[1]]; }
+    slots["many" + a[1]] = x;
+    break;
+  case "use":     // use <a> <how>: pass the value through efuns and operators that make temporaries
+    x = slots[a[1]];
+    switch (a[2]) {
+    case "copy": y = copy(x); break;
+    case "add": if (arrayp(x)) y = x + x; else if (mapp(x)) y = x + ([ "q" : x ]); else if (stringp(x)) y = x + x; break;
+    case "sub": if (arrayp(x)) y = x - x[0..0]; break;
+    case "and": if (arrayp(x)) y = x & x[0..1]; break;
+    case "slice": if (arrayp(x) || stringp(x)) y = x[1..<2]; break;
+    case "sort": if (arrayp(x)) y = sort_array(x, "cmp_val", this_object()); break;
+    case "filter": if (arrayp(x)) y = filter_array(x, (: stringp($1) :)); else if (mapp(x)) y = filter_mapping(x, (: 1 :)); break;
+    case "map": if (arrayp(x)) y = map_array(x, (: ({ $1 }) :)); else if (mapp(x)) y = map_mapping(x, (: $2 :)); break;
+    case "keys": if (mapp(x)) y = keys(x) + values(x); break;
+    case "sprintf": y = sprintf("%O %d", x, 7); break;
+    case "save": y = save_variable(x); if (y) y = restore_variable(y); break;
+    case "implode": if (arrayp(x)) y = explode(implode(filter_array(x, (: stringp($1) :)), ","), ","); break;
+    case "foreach": if (arrayp(x)) foreach (e in x) y = e; else if (mapp(x)) foreach (e, y in x) n++; break;
+    case "eval": if (functionp(x)) y = catch(evaluate(x, 1)); break;
+    case "catch": if (stringp(x)) y = catch(error(x)); else y = catch(error("err with value on the stack\n")); break;
+    case "throw": y = catch(throw(x)); break;
+    case "member": if (arrayp(x)) n = member_array(x[<1], x); break;
+    case "unique": if (arrayp(x)) y = unique_array(x, (: stringp($1) :)); break;
+    case "alloc": y = allocate_mapping(x ? 3 : 4); y[x] = x; break;
+    case "err": filter_array(({ x, x }), (: error("boom in callback\n") :)); break;
+    case "deep": y = ({ x, ({ x, ({ x }) }) }); y = deep_inventory(this_object()); break;
+    }
+    break;
+  case "memstat":
+    rec("MEMSTAT " + (sizeof(a) > 1 ? a[1] : ""));
+    break;
+  case "dkids":   // destruct every clone of /vobj that is not one of the permanent w* helpers (also half-created ones)
+    foreach (o in children("/vobj")) { string t; t = o->me(); if (o != find_object("/vobj") && (strlen(t) < 2 || t[0] != 'w' || t[1] < '0' || t[1] > '9')) destruct(o); }
+    break;
+  case "dslot":   // dslot <a>: destruct the object held in the slot
+    if (objectp(slots[a[1]])) destruct(slots[a[1]]);
+    break;
+  case "rcall":   // remove every pending call_out of this object that carries a value
+    while (remove_call_out("co_val") != -1) n++;
+    if (handles) { foreach (v in keys(handles)) if (v[0] == 'v') { remove_call_out(handles[v]); map_delete(handles, v); } }
+    break;
+  }
+}
+
 // uid operations (separate function: the command interpreter is at the local variable limit)
 void uop(string *a) {
   string v; object o;
@@ -451,6 +579,9 @@ void do_op(string op) {
     break;
   case "wclone": case "wload": case "whold": case "wdump": case "walk": case "lname": case "wmove": case "wdest":
     wop(a);
+    break;
+  case "mk": case "put": case "cyc": case "uncyc": case "share": case "cov": case "covf": case "itv": case "drop": case "clearall": case "rb": case "many": case "use": case "memstat": case "rcall": case "dslot": case "dkids":
+    cop(a);
     break;
   case "uclone": case "uload": case "useteuid": case "uexport": case "uids": case "ucall": case "ucf": case "uvs": case "umclone":
     uop(a);
